@@ -214,6 +214,16 @@ def rules(ctx, tier):
                 "stored flag vouching for it" % site_where(e.site), site_where(e.site))
     r.need(1, "publish rename")
     out.append(r.finish())
+    r = Rule("R7", "the stored 'pre-created' flag never runs ahead of the tree it vouches for: within an open, no shard "
+                   "directory is created after the settings file has been published",
+             "the first open crashes (or fails) between writing the settings and finishing the directory tree: the "
+             "stored flag says 'pre-created' over a partial tree, every later open trusts it, and puts whose hash "
+             "lands in a missing directory fail for ever")
+    from . import order
+    ENTRY_may = ctx.may.entry_sets(ctx.open_roots())
+    n = order.require_not_before(ctx, r, ENTRY_may, "CAS_MKDIR", ["SNAP_PUBLISH:SETTINGS"])
+    r.need(1, "shard-directory creation sites reachable from open")
+    out.append(r.finish())
     return out
 
 
@@ -359,18 +369,26 @@ def stored_flag_wins(ctx, r, loaders, sstructs):
         r.bad("blob-manager", None, "cannot find the struct that publishes blobs")
         return
     flags = [f["name"] for f in prog.adts[mgr]["variants"][0]["fields"] if prog.ty_str(f["ty"]) == "bool"]
-    for (csite, how) in prog.callers_index().get(loader_body, []):
-        b = csite.body
+    from ..prov import expand_down
+    for b in prog.bodies.values():
         sl = Slicer(ctx.world, b)
         for site in b.calls():
             tgt = prog.local_target(site)
-            if tgt is None or prog.adt_of(tgt.locals[0])[0] != mgr:
+            if tgt is None or prog.adt_of(tgt.locals[0])[0] != mgr or tgt.is_closure:
                 continue
             for i, a in enumerate(site.term["args"]):
                 if prog.ty_str(b.locals[place_of(a)["l"]]) != "bool" if place_of(a) else True:
                     continue
-                lv = sl.leaves_of_operand(a)
-                from_stored = [l for l in lv if l[0] == "call" and l[2] == csite.bb and l[3]]
+                # the flag may be computed by a helper (load-or-create settings): follow it into the helper's return
+                lv = expand_down(ctx.world, b, sl.leaves_of_operand(a), stop=(loader_body,))
+                from_stored = []
+                for l in lv:
+                    if l[0] == "call" and l[3]:
+                        lb = sl.body_at(l[2])
+                        bb = l[2][1] if isinstance(l[2], tuple) else l[2]
+                        tg2 = prog.local_target(Site(lb, bb, lb.blocks[bb]["term"]))
+                        if tg2 is not None and tg2.path == loader_body:
+                            from_stored.append(l)
                 from_cfg = [l for l in lv if l[0] == "param" and l[2]]
                 other = [l for l in lv if l not in from_stored and l not in from_cfg]
                 r.check(bool(from_stored) and not other, "flag-from-stored", b,
